@@ -67,3 +67,4 @@ Definition oracle (c : Case) : bool :=
   | CDateR _ _ (Panic _) | CTimeR _ _ (Panic _) | CTsR _ _ _ (Panic _) => false
   | _ => true
   end.
+Definition info (cs : list Case) : list N := [].
